@@ -133,6 +133,8 @@ class SsbGraphMinimizer:
             for in_edge_id in ins:
                 old_in_edge = g.es[in_edge_id]
                 attr = old_in_edge.attributes()
+                # The new edge also stands for the removed jump: if that one closed a loop, the new edge does.
+                attr["loop"] = attr["loop"] or g.es[outs[0]]["loop"]
                 iv = old_in_edge.source
                 # Create a new edge between the target label and the old entry point
                 g.add_edge(iv, ov, **attr)
